@@ -94,13 +94,13 @@ impl<'a, P> State<'a, P> {
         let registry_with_t = self.find_mut::<T>()?;
         registry_with_t.insert(Marker::<T>(PhantomData));
         let mut t = registry_with_t.remove::<T>()?;
-        f(&mut t, self)?;
+        let result = f(&mut t, self);
 
         let state_with_t = self.find_mut::<Marker<T>>()?;
         state_with_t.insert(t);
         state_with_t.remove::<Marker<T>>()?;
 
-        Ok(())
+        result
     }
 }
 
